@@ -10,6 +10,10 @@ CLAIMED = {
          'Trusted: ir2c, libc models (byte-exact scanners), CBMC. Server-level clauses (responses on the wire, other connections) are outside; header value parsers and line steps are in progress.', '4 C03'),
  'C04': ('(a) ParserBase::reset() from an ARBITRARY parser state (any step index, any 64-bit body/chunk counters, any small buffer) restores the fresh-parser state: one inductive step covering every history before a reset; (b) every Done/raise of the body step leaves the progress counters at their initial values (asserted in the C01 body lemmas for every body section of 8/11 bytes and every cut).',
          'Trusted: as C01. Handler::onInput calling reset exactly once per finished message and Request::operator= are outside this check (planned).', '4 C04'),
+ 'C16': ('(a) Consistency of the case-insensitive hash and equality used by every header map, on the real toLowercase / LowercaseEqual / LowercaseEqualStatic code with real std::string SSO code: for all pairs of strings of length <= 3 (thorough 6) over all 256 byte values LowercaseEqual(a,b) <=> toLowercase(a)==toLowercase(b) and toLowercase is the C-locale fold, so a stored name is found under every capitalisation and equal keys hash equally. (b) HeadersStep hands exactly the sent name/value byte ranges to addRaw/parseRaw/cookie parsers (C01 headers harness, every 8-byte header section). Typed write/parse round trips (c) are in progress.',
+         'Trusted: libstdc++ unordered_map semantics (insert keeps the first value, find = hash + equal), std::hash<string> a function of the bytes, C locale. Date header outside.', '4 C16'),
+ 'C19': ('AddressParser, Port(const std::string&) and the port section of Address::init (src/common/net.cc, sel mode with ghost strings, byte-exact strtol model): for every text of length <= 11 (thorough 12): host/port/hasColon/family equal a reference splitter (bracketed literal first, else first colon); a port is accepted iff it is a complete numeral in 0..65535 and is then stored untruncated (80 when absent); everything else raises std::invalid_argument before any resolution is attempted.',
+         'Trusted: ghost models of std::string find/substr/c_str, strtol model (cross-checked with glibc), environment stubs for inet_pton/getaddrinfo (arbitrary). Literal<->binary conversion, printing and name resolution are libc and outside.', '4 C19'),
  'C20': ('Base64 Encode/Decode kernels (src/common/base64.cc, real std::string/vector code inlined): for every byte string of each concrete length 0..6 (thorough 0..9) CBMC shows Decode(Encode(x))==x and Encode(x) equal to an RFC 4648 reference; for every NUL-terminated text of length 0..5 (thorough 0..8) Decode throws or returns <=3n/4 bytes with all accesses inside the exact-size text block.',
          'Trusted: ir2c translation (validated natively against the g++ build on random inputs every run), models of std::string::_M_construct/reserve/operator new, CBMC. Bounded lengths only; one query per concrete length.', '4 C20'),
 }
